@@ -66,7 +66,7 @@ func genKnobs(r *Rand) ExecKnobs {
 	k := genKnobs0(r)
 	if r.Chance(0.1) {
 		// slowness is not failure: whatever is judged about the statement holds with one of its driver calls slow
-		k.Slow = &FaultSpec{Call: r.Intn(6), Mode: []string{"slow", "slowmid"}[r.Intn(2)], J: r.Intn(4)}
+		k.Slow = &FaultSpec{Call: r.Intn(6), Mode: []string{"slow", "slowmid"}[r.Intn(2)], J: r.Intn(8)}
 	}
 	return k
 }
